@@ -8,8 +8,20 @@ Strings are `List Char`.  Everything that depends on Unicode tables is read from
 `CharClass` record; the break-character set is a predicate `B : Char → Bool`
 (`c in word_break_chars` for a one-character `c`, whether the argument is a `str` or a `set`).
 Partial Python operations (`s[-1]`, `s[-2]`, `s[0]`) are `Res`-valued and raise `IndexError`.
+
+The numbers and hyphen literals of the word-break decision are NOT written here: the factors with which
+`determine_word_break`, `merge_is_more_common` and `start_word_has_incorrect_titlecase` reach their
+predicates (literal at the call site, else the callee's default), the `> 0` / `== 0` thresholds, the `'-'`
+literals of `has_non_merge_word` / `has_word_break_symbol` / `end_start_are_hyphenated_compound`, the
+character set and the `'--'` of `remove_hyphen`, and the default break characters of the four functions
+that have one are `Generated.C17.*`, regenerated from the source on every run (harness/props/c17.py
+`generated_c17`).  What the theorems need of them is stated in Lemmas/C17Consts.lean.
+Written by hand: the blank of `line[-2] == ' '` / `term == ' '` in `get_line_words` (tied to the source by
+the obligations `consts_norm_blank_is_blank` / `consts_skip_term_is_blank`: the proofs need exactly U+0020
+there), and structure: the lengths `>= 2` that go with the slices `[-2]`, `[:-2]`, `[-2:]`.
 -/
 import PagexmlModel.Basic.Err
+import PagexmlModel.Generated.C17
 
 namespace Pagexml.C17
 
@@ -177,12 +189,13 @@ def removeWordBreakChars (B : BreakSet) (endWord startWord : Str) : Res Str := d
   let s := if B s0 then startWord.tail else startWord
   return e ++ s
 
-def hyphenSet (c : Char) : Bool := c = '-' || c = '=' || c = ':'
+/-- `c in {'-', '=', ':'}` (the set is regenerated) -/
+def hyphenSet (c : Char) : Bool := Generated.C17.hyphenChars.contains c
 
 def removeHyphen (word : Str) : Res Str := do
   let l ← pyLast word
   if hyphenSet l then
-    if word.length ≥ 2 && (word.drop (word.length - 2) == ['-', '-']) then return word.dropLast.dropLast
+    if word.length ≥ 2 && (word.drop (word.length - 2) == Generated.C17.doubleHyphen) then return word.dropLast.dropLast
     else return word.dropLast
   else return word
 
@@ -206,8 +219,8 @@ structure Detector where
 def hasNonMergeWord (cc : CharClass) (D : Detector) (e s : Str) : Bool :=
   if !hasWordChar cc e then true
   else if !hasWordChar cc s then true
-  else if e = ['-'] then true
-  else if s = ['-'] then true
+  else if e = Generated.C17.nonMergeEndWord then true
+  else if s = Generated.C17.nonMergeStartWord then true
   else if D.typicalNonMergeEnds e then true
   else if D.typicalNonMergeStarts s then true
   else false
@@ -231,14 +244,16 @@ def endStartAreHyphenatedCompound (cc : CharClass) (D : Detector) (e s mergeWord
     -- `a and b and c` short-circuits; all three subscripts are guarded by the caller anyway
     let c1 ← (if cc.isUpper e0 then do
                 let el ← pyLast e
-                if el = '-' then do
+                if [el] = Generated.C17.compoundHyphen then do
                   let s0 ← pyHead s
                   pure (cc.isUpper s0)
                 else pure false
               else pure false)
     if c1 then
-      if D.freqMid s = 0 && D.freqAll mergeWord = 0 && D.freqAll (e ++ s) = 0 then return false
-      else if D.freqMid e = 0 && D.freqAll mergeWord = 0 && D.freqAll (e ++ s) = 0 then return false
+      if D.freqMid s = Generated.C17.compoundStartUnseen.1 && D.freqAll mergeWord = Generated.C17.compoundStartUnseen.2.1
+          && D.freqAll (e ++ s) = Generated.C17.compoundStartUnseen.2.2 then return false
+      else if D.freqMid e = Generated.C17.compoundEndUnseen.1 && D.freqAll mergeWord = Generated.C17.compoundEndUnseen.2.1
+          && D.freqAll (e ++ s) = Generated.C17.compoundEndUnseen.2.2 then return false
       else return true
     else return false
 
@@ -246,7 +261,7 @@ def startWordHasIncorrectTitlecase (cc : CharClass) (D : Detector) (e s : Str) (
   if D.commonNonMergeStarts s then false
   else if strIsUpper cc s then false
   else if D.freqAll s < factor && D.freqAll e < factor then false
-  else isNonMidWord D s 5 && isNonMidWord D e 5
+  else isNonMidWord D s Generated.C17.titlecaseNonMidFactorStart && isNonMidWord D e Generated.C17.titlecaseNonMidFactorEnd
 
 def hasCommonMergeEnd (D : Detector) (e s : Str) : Bool :=
   if D.typicalMergeEnds e then true
@@ -255,9 +270,9 @@ def hasCommonMergeEnd (D : Detector) (e s : Str) : Bool :=
 
 def hasWordBreakSymbol (cc : CharClass) (D : Detector) (e s mergeWord : Str) : Res Bool := do
   let el ← pyLast e
-  if el ≠ '-' then return false
+  if [el] ≠ Generated.C17.breakSymbol then return false
   else if D.freqAll mergeWord > D.freqAll e then return true
-  else if D.freqAll mergeWord > 0 then return true
+  else if D.freqAll mergeWord > Generated.C17.breakSymbolMergeMin then return true
   else if D.freqMid s > D.freqStart s then return false
   else if strIsDigit cc s then return false
   else return true
@@ -267,9 +282,9 @@ def endIsCommonWord (D : Detector) (e : Str) (commonFreq : Nat) : Bool :=
 
 def mergeIsMoreCommon (D : Detector) (e s mergeWord : Str) : Bool :=
   if D.freqAll mergeWord > D.freqMid e && D.freqAll mergeWord > D.freqMid s then true
-  else if isNonMidWord D e 5 && D.freqAll mergeWord > D.freqMid s then true
-  else if isNonMidWord D s 5 && D.freqAll mergeWord > D.freqMid e then true
-  else if D.freqAll mergeWord > 0 then true
+  else if isNonMidWord D e Generated.C17.mergeNonMidFactorEnd && D.freqAll mergeWord > D.freqMid s then true
+  else if isNonMidWord D s Generated.C17.mergeNonMidFactorStart && D.freqAll mergeWord > D.freqMid e then true
+  else if D.freqAll mergeWord > Generated.C17.mergeMoreCommonMin then true
   else false
 
 /-- the answer of `determine_word_break`: `(do_merge, merge_word)` -/
@@ -297,26 +312,48 @@ def determine (cc : CharClass) (det : Option Detector) (B0 : BreakSet)
     let bigramFreq := if B el then D.bigram e.dropLast s else D.bigram e s
     -- the statements after the first if/elif chain (reached when no arm of it returned)
     let tail : Res Decision := do
-      if endStartAreBigram D mergeWord bigramFreq 2 then return (false, none)
-      else if endIsCommonWord D e 1000 then return (false, none)
+      if endStartAreBigram D mergeWord bigramFreq Generated.C17.bigramFactorSecond then return (false, none)
+      else if endIsCommonWord D e Generated.C17.commonFreq then return (false, none)
       else if mergeIsMoreCommon D e s mergeWord then return (true, some mergeWord)
       else
         let el2 ← pyLast e
         if D.breakChars el2 then return (true, some mergeWord)
         else return (false, none)
     if hasNonMergeWord cc D e s then return (false, none)
-    else if endStartAreBigram D mergeWord bigramFreq 5 then return (false, none)
+    else if endStartAreBigram D mergeWord bigramFreq Generated.C17.bigramFactorFirst then return (false, none)
     else
       let title ← startIsTitleword cc s
       if title then
         let comp ← endStartAreHyphenatedCompound cc D e s mergeWord
         if comp then return (true, some (e ++ s))
-        else if startWordHasIncorrectTitlecase cc D e s 10 then return (true, some mergeWord)
+        else if startWordHasIncorrectTitlecase cc D e s Generated.C17.titlecaseFactor then return (true, some mergeWord)
         else return (false, none)
       else if hasCommonMergeEnd D e s then return (true, some mergeWord)
       else
         let sym ← hasWordBreakSymbol cc D e s mergeWord
         if sym then return (true, some mergeWord)
         else tail
+
+/-! ### the functions called without `word_break_chars`: the default of the source applies -/
+
+/-- `c in word_break_chars` for a string / set of characters -/
+def breakOf (cs : List Char) : BreakSet := fun c => cs.contains c
+
+/-- `get_line_words(line)` / `get_line_words(line, word_break_chars)` -/
+def lineWordsD (cc : CharClass) (B : Option BreakSet) (line : Option Str) : Res (List Str) :=
+  lineWords cc (B.getD (breakOf Generated.C17.defaultBreakGetLineWords)) line
+
+/-- `get_page_lines_words(page)` / `get_page_lines_words(page, word_break_chars)` -/
+def pageLinesWordsD (cc : CharClass) (B : Option BreakSet) (texts : List (Option Str)) : Res (List (List Str)) :=
+  pageLinesWords cc (B.getD (breakOf Generated.C17.defaultBreakPageLinesWords)) texts
+
+/-- `remove_word_break_chars(end_word, start_word)` / `…(end_word, start_word, word_break_chars)` -/
+def removeWordBreakCharsD (B : Option BreakSet) (endWord startWord : Str) : Res Str :=
+  removeWordBreakChars (B.getD (breakOf Generated.C17.defaultBreakRemoveWordBreakChars)) endWord startWord
+
+/-- `determine_word_break(curr_words, prev_words, wbd)` / `…(curr_words, prev_words, wbd, word_break_chars)` -/
+def determineD (cc : CharClass) (det : Option Detector) (B0 : Option BreakSet)
+    (prevWords currWords : List Str) : Res Decision :=
+  determine cc det (B0.getD (breakOf Generated.C17.defaultBreakDetermine)) prevWords currWords
 
 end Pagexml.C17
